@@ -42,6 +42,12 @@ def as16 : Addr → List Nat
   | v4 a => toBytes 16 (0xffff * 2 ^ 32 + a.toNat)
   | v6 a _ => toBytes 16 a.toNat
 
+/-- `ip.Unmap()`: a 4in6 address `::ffff:a.b.c.d` becomes the IPv4 address `a.b.c.d` (the
+zone is dropped); every other address is returned as is. -/
+def unmap : Addr → Addr
+  | v6 a z => if a.toNat / 2 ^ 32 = 0xffff then v4 (BitVec.ofNat 32 a.toNat) else v6 a z
+  | x => x
+
 end Addr
 
 /-- run a reified dispatcher on an address -/
@@ -50,6 +56,7 @@ def D.eval (x : Addr) : D → GoM Bool
   | .on4 f => x.as4.map fun bs => f.eval (ipOf bs)
   | .on16 f => .ok (f.eval (ipOf x.as16))
   | .ite c t e => if c.holds x.kind then D.eval x t else D.eval x e
+  | .unmap d => D.eval x.unmap d
 
 /-- `netutil.IsLocallyServed`, as the current source has it -/
 def isLocallyServed (x : Addr) : GoM Bool := Gen.Subnets.IsLocallyServed.eval x
